@@ -77,9 +77,12 @@ def body(cfg, a0, b0, a1, b1, q):
     allnodes = list(g._node)
     if len(data["nodes"]) != len(allnodes):
         return False
-    for n, nd in zip(allnodes, data["nodes"]):
-        if nd.get(idkey) != n:
+    listed = []
+    for nd in data["nodes"]:                 # every node exactly once (the order of the list is not part of the property)
+        n = nd.get(idkey)
+        if n not in allnodes or n in listed:
             return False
+        listed.append(n)
         if {k: v for k, v in nd.items() if k != idkey} != attrs.get(n, {}):
             return False
     # exactly one link per interaction and per present instant, oriented as in G
@@ -124,7 +127,7 @@ def body(cfg, a0, b0, a1, b1, q):
         h = json_graph.node_link_graph(fresh, attrs=at) if idkey != "id" else json_graph.node_link_graph(fresh)
     if type(h) is not type(g):
         return False
-    if list(h._node) != allnodes:
+    if sorted(h._node, key=repr) != sorted(allnodes, key=repr):
         return False
     for n in allnodes:
         if h._node[n] != attrs.get(n, {}):
